@@ -105,6 +105,9 @@ func (op Op) String() string {
 		if op.VisErr > 0 {
 			return fmt.Sprintf("visualize err-of-step=%d", op.VisErr-1)
 		}
+		if op.VisErr == -1 {
+			return "visualize err-of-last-failed-invoke"
+		}
 		return "visualize"
 	case OpString:
 		return fmt.Sprintf("string s%d", op.Scope)
